@@ -284,6 +284,9 @@ def run(ctx):
     if n_refs and rf["in_fragment"] < rf["cases"] // 2:
         ctx.broken(f"stream refs: only {rf['in_fragment']} of {rf['cases']} generated scenarios are inside the fragment "
                    f"(outside: {dict(routside)}) — the tie of Model/PipelineRefs does not check")
+    ctx.dependency("C13", "a permitted (or same-namespace) backend receives traffic only at the endpoints of THAT Service in "
+                          "ITS namespace: the upstream's servers are exactly the ready endpoints of the referenced Service port")
+
     ctx.finish({
         "evaluations": st["n"],
         "distinct_nontrivial": len(nontrivial),
